@@ -1,6 +1,7 @@
-"""Property -> rule composition."""
+"""Property -> rule composition.  Each function decides the statically decidable clauses of one property."""
 from .rules import kdefects, numeric, seed
 
+M = 'numqi.'
 DECISION_C05 = ['numqi.entangle.ppt.is_ppt', 'numqi.entangle.ppt.is_generalized_ppt',
                 'numqi.entangle.ppt.get_generalized_ppt_boundary', 'numqi.entangle._misc.check_swap_witness',
                 'numqi.entangle._misc.check_reduction_witness', 'numqi.utils.is_positive_semi_definite']
@@ -8,9 +9,50 @@ DECISION_C20 = ['numqi.matrix_space._numerical_range.detect_real_matrix_subspace
                 'numqi.matrix_space._hierarchy.has_rank_hierarchical_method',
                 'numqi.matrix_space._hierarchy.is_ABC_completely_entangled_subspace']
 
+ENTANGLE = ['numqi.entangle.ppt', 'numqi.entangle._misc', 'numqi.entangle.eof', 'numqi.entangle.measure',
+            'numqi.entangle.symext', 'numqi.utils']
+
+
+def c05(proj, rep, tier):
+    n = numeric.t1(proj, rep, DECISION_C05)
+    rep.floor('T1 decision comparisons + PSD shift sites (C05)', n, 10)
+    n = kdefects.k1(proj, rep, ENTANGLE)
+    rep.floor('K1 int()/float() casts of names in entangle criteria', n, 8)
+    n = numeric.f1(proj, rep, ['numqi.entangle.eof', 'numqi.entangle.measure', 'numqi.entangle._misc', 'numqi.utils'])
+    rep.floor('F1 log sites in entangle measures + utils', n, 10)
+
+
+def c10(proj, rep, tier):
+    nfun, tot = seed.run(proj, rep, None)
+    rep.floor('seed-accepting functions', nfun, 50)
+    rep.floor('S2 nested seeded call sites', tot['S2'], 70)
+    rep.floor('S4 generator draws', tot['S4'], 40)
+    rep.assume('calls through user callables (model(), gate.forward, theta0 callables) are not followed: the claim is '
+               '"no seed leak in numqi\'s own code on the resolved paths"')
+    rep.assume('bit-identical output additionally needs deterministic NumPy/LAPACK kernels (assumed)')
+
+
+def c11(proj, rep, tier):
+    n = kdefects.n1(proj, rep, ['numqi.sim.state', 'numqi.sim.circuit', 'numqi.sim.dm'])
+    nfun, tot = seed.run(proj, rep, ['numqi.sim.state', 'numqi.sim.circuit'])
+    rep.floor('seed-accepting functions in sim.state/sim.circuit', nfun, 4)
+
+
+def c18(proj, rep, tier):
+    mods = ['numqi.state._internal', 'numqi.entangle.upb', 'numqi.dicke', 'numqi.utils', 'numqi.unique_determine._internal']
+    n = kdefects.k2(proj, rep, mods)
+    rep.floor('K2 true divisions in catalogue modules', n, 100)
+    n = numeric.f1(proj, rep, mods)
+    rep.floor('F1 log sites in catalogue modules', n, 10)
+
+
+def c20(proj, rep, tier):
+    n = numeric.t1(proj, rep, DECISION_C20)
+    rep.floor('T1 decision comparisons (C20)', n, 4)
+
 
 def dev(proj, rep, tier):
-    seed.run(proj, rep, None)
+    pass
 
 
-PROPS = {'DEV': dev}
+PROPS = {'C05': c05, 'C10': c10, 'C11': c11, 'C18': c18, 'C20': c20, 'DEV': dev}
